@@ -43,13 +43,14 @@ struct Corpus {
    }
 };
 
-enum SrcKind { SRC_STDIN, SRC_PATH, SRC_MISSING, SRC_DIR, SRC_EMPTYNAME, SRC_NONE };
+enum SrcKind { SRC_STDIN, SRC_PATH, SRC_MISSING, SRC_DIR, SRC_EMPTYNAME, SRC_NONE, SRC_MISSING_LONG };
 
 struct Scenario {
    std::string doc;
    std::string type = "slha";       ///< input-type option used
    SrcKind src = SRC_STDIN;
    std::vector<std::string> pre_args, post_args; ///< extra argv elements before/after the input option
+   std::string longname;            ///< SRC_MISSING_LONG: name (relative to the simulated directory) of a file that cannot be opened
    uint64_t chunk_seed = 0; unsigned chunk_max = 0; ///< stdin delivery schedule (0 = all at once)
    long readerr = -1;               ///< input stream fails after this many bytes (-1 = never)
    long eintr = -1;                 ///< L2 only: EINTR on the k-th read
@@ -267,11 +268,32 @@ inline void apply_op(Scenario& s, const Corpus& corpus, const std::vector<std::s
       else if (k == "dir") { s.src = SRC_DIR; note_fault(s, "source_is_directory"); }
       else if (k == "emptyname") { s.src = SRC_EMPTYNAME; note_fault(s, "empty_source_name"); }
       else if (k == "none") { s.src = SRC_NONE; note_fault(s, "no_input_option"); }
+      else if (k == "missinglong") {
+         // a name that cannot be opened, of a chosen length: one long component (ENAMETOOLONG beyond 255) or nested short ones (ENOENT)
+         const size_t len = (size_t)std::min<long long>(std::max<long long>(1, num(2)), 65536);
+         s.longname.clear();
+         if (num(3) % 2 == 0) s.longname.assign(len, 'n');
+         else { while (s.longname.size() + 9 <= len) s.longname += "no-such/"; s.longname.append(len - s.longname.size(), 'f'); }
+         s.src = SRC_MISSING_LONG; note_fault(s, "missing_file_long_name");
+      }
    } else if (op == "arg" || op == "prearg") {
       std::string a = t.size() > 1 ? t[1] : "";
       if (a == "<empty>") a = "";
       (op == "arg" ? s.post_args : s.pre_args).push_back(a);
       note_fault(s, "extra_argument");
+   } else if (op == "longarg") {
+      // longarg <pre|post> <kind> <length>: a very long command-line argument
+      const size_t len = (size_t)std::min<long long>(std::max<long long>(1, num(3)), 65536);
+      std::string a;
+      switch (num(2) % 5) {
+      case 0: a = "--" + std::string(len, 'x'); break;
+      case 1: a = "--slha-input-file=" + std::string(len, 'y'); break;
+      case 2: a = std::string(len, 'z'); break;
+      case 3: a = "--help" + std::string(len, 'h'); break;
+      default: a = "--thdm-input-file=/" + std::string(len, 'q'); break;
+      }
+      ((t.size() > 1 && t[1] == "pre") ? s.pre_args : s.post_args).push_back(a);
+      note_fault(s, "long_argument");
    } else if (op == "chunks") { s.chunk_seed = (uint64_t)num(1); s.chunk_max = (unsigned)std::max<long long>(1, num(2) % 4097); note_fault(s, "chunked_delivery"); }
    else if (op == "readerr") { s.readerr = (long)std::max<long long>(0, num(1)); }
    else if (op == "eintr") { s.eintr = (long)std::max<long long>(0, num(1)); }
@@ -339,7 +361,11 @@ inline std::vector<std::string> gen_plan(const Corpus& corpus, uint64_t seed, st
       }
    };
    auto env_op = [&]() -> std::string {
-      switch (r.below(10)) {
+      switch (r.below(12)) {
+      case 10: { static const long lens[] = {64, 200, 219, 220, 255, 256, 257, 300, 511, 512, 1023, 1024, 4095, 4096, 4097, 20000, 65536};
+                 return "src missinglong " + std::to_string(r.chance(0.6) ? lens[r.below(17)] : (long)(1 + r.below(1200))) + " " + std::to_string(r.below(2)); }
+      case 11: { static const long lens[] = {64, 200, 255, 256, 300, 512, 1024, 4096, 20000, 65536};
+                 return std::string("longarg ") + (r.chance(0.5) ? "pre " : "post ") + std::to_string(r.below(5)) + " " + std::to_string(r.chance(0.6) ? lens[r.below(10)] : (long)(1 + r.below(1200))); }
       case 0: return "src path";
       case 1: return "src stdin";
       case 2: { static const char* const k[] = {"missing", "dir", "emptyname", "none"}; return std::string("src ") + k[r.below(4)]; }
